@@ -113,7 +113,7 @@ func (pnf *PrevNextFinder) FindOutlink(root *html.Node, pageURL *nurl.URL, findN
 	tmp.Path = "/"
 	tmp.RawPath = tmp.Path
 	allowedPrefix := stringutil.UnescapedString(tmp)
-	lenPrefix := len(allowedPrefix)
+	lenLowerPrefix := len(strings.ToLower(allowedPrefix))
 	pnf.printLog("Allowed prefix:", allowedPrefix)
 
 	// Loop through all links, looking for hints that they may be next- or previous- page links.
@@ -142,7 +142,9 @@ func (pnf *PrevNextFinder) FindOutlink(root *html.Node, pageURL *nurl.URL, findN
 			continue
 		}
 
-		if findNext && !rxNumber.MatchString(linkHref[lenPrefix:]) {
+		// The prefix was matched case-insensitively, and lower-casing may change the byte length
+		// (e.g. U+212A KELVIN SIGN becomes "k"), so the rest is cut from the lower-cased href.
+		if findNext && !rxNumber.MatchString(strings.ToLower(linkHref)[lenLowerPrefix:]) {
 			pnf.appendDebugStrForLink(link, "ignored: not prefix + number")
 			continue
 		}
